@@ -74,6 +74,11 @@ def showSaxFin (out : Outcome) : String :=
   | .error e c _ => s!"fail err {showErr e c}"
   | .bad b => showBad b
 
+/-- did the run end in an exception (throwing build: every `fail()` throws) -/
+def thrownBit : Outcome → String
+  | .error _ _ _ => "1"
+  | _ => "0"
+
 /-- bit `i` of the mask = the `i`-th member of `SaxCallbacks` holds a callable -/
 def regOf (mask : Nat) : Registered := fun sl =>
   match Slot.all.idxOf? sl with
@@ -164,6 +169,18 @@ def step (st : Unit) : List String → Unit × String
       else if op = "dom" then (st, showDom (domBuild o bs))
       else if op = "dom0" then (st, showDom0 (domBuild o bs))
       else if op = "domh" then (st, showHelpers (domBuild o bs))
+      -- the same three interfaces in a build with IORA_XML_THROW_ON_ERROR=1
+      else if op = "tpull" then
+        let r := tokens { o with throwing := true } bs
+        (st, s!"{showPull bs r} thrown={thrownBit r.2}")
+      else if op = "tsax" then
+        let ot : Options := { o with throwing := true }
+        let r := runSax (fun _ => true) ot bs
+        (st, s!"{joinToks bs (r.1.map (·.2))} | {showSaxFin (tokens ot bs).2} thrown={thrownBit (tokens ot bs).2}")
+      else if op = "tdom" then
+        match domBuildT o bs with
+        | .ret r => (st, showDom r)
+        | .thrown e c => (st, s!"throw {showErr e c}")
       else (st, "bad-op")
     | _, _ => (st, "bad-op")
   | ["saxm", m, a, b, c, d, e, hx] =>
@@ -175,9 +192,12 @@ def step (st : Unit) : List String → Unit × String
   | ["dec", hx] =>
     match ofHexFast hx with
     | some bs =>
-      match decodeEntities bs with
-      | .ok out => (st, s!"ok {toHex out}")
-      | .err e off => (st, s!"err {showErrKind e} {off}")
+      -- the read-by-read decoder (indexed partial reads under the C++ guards)
+      match decodeEntitiesI bs with
+      | .ok (.ok out) => (st, s!"ok {toHex out}")
+      | .ok (.err e off) => (st, s!"err {showErrKind e} {off}")
+      | .ok .fuel => (st, "MODEL-FUEL")
+      | .oob => (st, "MODEL-OOB")
       | .fuel => (st, "MODEL-FUEL")
     | none => (st, "bad-op")
   | ["dec0", hx] =>
